@@ -42,6 +42,22 @@ CLAIMED = {
              "app_wrappers.py (WSGIWrapper, _build_environ).",
         technique="Coq proof (induction over message/header/step lists) + in-Coq differential correspondence",
     ),
+    "C12": dict(
+        text="Coq theorems about the HTTPStream and WSStream automata (guard ladders and version sets regenerated from "
+             "the source by the translator): every message the ASGI reference automaton rejects raises and emits nothing "
+             "(for every state and payload, with the accepted-though-invalid places listed and refuted by witness), at most "
+             "one final response head for every interleaving of application messages, body and closure events, and no "
+             "CR/LF/NUL survives header validation. Tied to the code by call-by-call differential execution of the real "
+             "stream classes, an independent Python reference automaton, and protocol-level runs whose wire output is "
+             "parsed by independent h11/h2 clients.",
+        design="7/C12",
+        note="Trusted: Coq kernel + vm_compute, translate/py2coq.py (ladders, version sets), harness (rig.py, streams.py, "
+             "sched.py, c12.py, asgi_ref.py). h11/h2/wsproto are not modelled: h11's rejection of illegal field bytes and "
+             "h2's lack of outbound checks are observed on the real libraries. Open known findings F31-F37 (accepted-"
+             "though-invalid messages) are reported as KNOWN-FINDING. Modelled not verified: http_stream.py, ws_stream.py, "
+             "utils.build_and_validate_headers.",
+        technique="Coq proof by symbolic execution of the monadic stream model + in-Coq differential correspondence",
+    ),
 }
 NOT_APPLICABLE = {}
 PENDING_REASON = "check not built yet in this session (planned: Coq model + proof + correspondence, see DESIGN.md section 7)"
